@@ -8,7 +8,7 @@ Proof. destruct b; cbn; auto. Qed.
 
 Lemma all_inputs_complete : forall i, In i all_inputs.
 Proof.
-  intros [st sr ou a b c d e]. unfold all_inputs.
+  intros [st sr ou a b c d e w]. unfold all_inputs.
   apply in_flat_map. exists st. split; [apply in_bools|].
   apply in_flat_map. exists sr. split; [destruct sr; cbn; auto|].
   apply in_flat_map. exists ou. split; [destruct ou; cbn; auto|].
@@ -16,7 +16,8 @@ Proof.
   apply in_flat_map. exists b. split; [apply in_bools|].
   apply in_flat_map. exists c. split; [apply in_bools|].
   apply in_flat_map. exists d. split; [apply in_bools|].
-  apply in_map. destruct e; cbn; auto.
+  apply in_flat_map. exists e. split; [destruct e; cbn; auto|].
+  apply in_map. apply in_bools.
 Qed.
 
 Lemma c18_all : forallb (c18_ok fatal_on_error fatal_only_if_strict) all_inputs = true.
